@@ -1,6 +1,6 @@
 SPECIFICATION MCSpec
-CONSTANTS Classes = {0, 1, 2, 3}
-  Codes = {0, 3, 7}
+CONSTANTS Classes = {1, 2, 3, 4}
+  Codes = {0, 3, 5, 7}
   SortedHash = TRUE
   Full = FALSE
   InitSizes = {2}
